@@ -166,11 +166,17 @@ def run(pid, tier, seed):
     hist = []
     for h in range(nh):
         long_stream = (h % 3 == 2)     # many medium frames: kilobytes flow through without the buffer ever being empty
+        tiny_many = (h % 5 == 4)       # hundreds of tiny frames in tiny chunks: a small buffer that is reused over and over
         nf = rng.randint(8, 30) if long_stream else (rng.randint(3, 5) if h in (0, 1) else rng.randint(0, 6))
+        if tiny_many:
+            long_stream = False
+            nf = rng.randint(150, 300)
         frames = []
         for _ in range(nf):
             r = rng.random()
-            if h in (0, 1) and len(frames) == 1:
+            if tiny_many:
+                ln = rng.choice([0, 1, 2, 3, 3, 4, 5])
+            elif h in (0, 1) and len(frames) == 1:
                 ln = 65535 - h          # every run has frames of the two largest sizes, between smaller ones
             elif long_stream:
                 ln = rng.choice([rng.randint(100, 1500), rng.randint(0, 40), 1460, 512])
@@ -198,7 +204,9 @@ def run(pid, tier, seed):
         pos = 0
         while pos < len(stream):
             r = rng.random()
-            if long_stream:
+            if tiny_many:
+                n = rng.choice([1, 1, 2, 3, 5, 7])
+            elif long_stream:
                 n = rng.choice([1460, 1460, 5130, 536, rng.randint(1, 3000)])
             elif r < 0.3:
                 n = 1
